@@ -66,6 +66,8 @@ pub trait Drv<V: HVal> {
     fn put(&self, p: &Params, k: &str, v: V);
     fn clear(&self, p: &Params);
     fn snap(&self) -> Snap;
+    /// what a conditional invalidation does: remove the matching keys from store and queue
+    fn remove_where(&self, pred: &dyn Fn(&str) -> bool);
 }
 
 macro_rules! l1_type {
@@ -110,6 +112,15 @@ macro_rules! l1_type {
                 fn clear(&self, p: &Params) {
                     Self::c(p).clear()
                 }
+                fn remove_where(&self, pred: &dyn Fn(&str) -> bool) {
+                    let mut o = G_ORDER.lock();
+                    let mut m = G_MAP.write();
+                    let ks: Vec<String> = m.keys().filter(|k| pred(k)).cloned().collect();
+                    for k in ks {
+                        m.remove(&k);
+                        o.retain(|x| *x != k);
+                    }
+                }
                 fn snap(&self) -> Snap {
                     Snap {
                         entries: G_MAP.read().iter().map(|(k, e)| (k.clone(), (e.value.stamp(), e.value.fp()))).collect(),
@@ -153,6 +164,19 @@ macro_rules! l1_type {
                     T_MAP.with(|m| m.borrow_mut().clear());
                     T_ORDER.with(|m| m.borrow_mut().clear());
                 }
+                fn remove_where(&self, pred: &dyn Fn(&str) -> bool) {
+                    T_MAP.with(|m| {
+                        T_ORDER.with(|o| {
+                            let mut m = m.borrow_mut();
+                            let mut o = o.borrow_mut();
+                            let ks: Vec<String> = m.keys().filter(|k| pred(k)).cloned().collect();
+                            for k in ks {
+                                m.remove(&k);
+                                o.retain(|x| *x != k);
+                            }
+                        })
+                    })
+                }
                 fn snap(&self) -> Snap {
                     Snap {
                         entries: T_MAP.with(|m| m.borrow().iter().map(|(k, e)| (k.clone(), (e.value.stamp(), e.value.fp()))).collect()),
@@ -188,6 +212,14 @@ macro_rules! l1_type {
                     let mut o = A_ORDER.lock();
                     A_MAP.clear();
                     o.clear();
+                }
+                fn remove_where(&self, pred: &dyn Fn(&str) -> bool) {
+                    let mut o = A_ORDER.lock();
+                    let ks: Vec<String> = A_MAP.iter().filter(|e| pred(e.key())).map(|e| e.key().clone()).collect();
+                    for k in ks {
+                        A_MAP.remove(&k);
+                        o.retain(|x| *x != k);
+                    }
                 }
                 fn snap(&self) -> Snap {
                     Snap {
@@ -471,4 +503,60 @@ fn check_side(m: &Model, p: &Params, snap: &Snap) -> Result<(), Clause> {
         ));
     }
     Ok(())
+}
+
+// ---------------------------------------------------------------------------------------
+// type-erased access for the differential engine (C19)
+
+pub trait Dyn1 {
+    fn reset(&self);
+    fn get(&self, p: &Params, k: &str) -> Option<u64>;
+    /// stores `make(stamp, size, shape).clone()` — the macro stores a clone of the result
+    fn put(&self, p: &Params, k: &str, stamp: u64, size: usize, shape: u8);
+    fn remove_where(&self, p: &Params, pred: &dyn Fn(&str) -> bool);
+    fn keys(&self) -> BTreeSet<String>;
+}
+
+struct Erased<V: HVal, D: Drv<V>>(D, std::marker::PhantomData<V>);
+
+impl<V: HVal, D: Drv<V>> Dyn1 for Erased<V, D> {
+    fn reset(&self) {
+        self.0.reset()
+    }
+    fn get(&self, p: &Params, k: &str) -> Option<u64> {
+        self.0.get(p, k).map(|v| v.stamp())
+    }
+    fn put(&self, p: &Params, k: &str, stamp: u64, size: usize, shape: u8) {
+        let v = V::make(stamp, size, shape);
+        self.0.put(p, k, v.clone())
+    }
+    fn remove_where(&self, _p: &Params, pred: &dyn Fn(&str) -> bool) {
+        self.0.remove_where(pred)
+    }
+    fn keys(&self) -> BTreeSet<String> {
+        self.0.snap().entries.keys().cloned().collect()
+    }
+}
+
+macro_rules! dyn_arm {
+    ($m:ident, $fl:expr) => {
+        match $fl {
+            Flavour::Sync => Box::new(Erased::<$m::V, _>($m::G, std::marker::PhantomData)) as Box<dyn Dyn1>,
+            Flavour::Thread => Box::new(Erased::<$m::V, _>($m::T, std::marker::PhantomData)) as Box<dyn Dyn1>,
+            Flavour::Async => Box::new(Erased::<$m::V, _>($m::A, std::marker::PhantomData)) as Box<dyn Dyn1>,
+        }
+    };
+}
+
+pub fn dyn_drv(vtype: u8, fl: Flavour) -> Box<dyn Dyn1> {
+    match vtype {
+        0 => dyn_arm!(v0, fl),
+        1 => dyn_arm!(v1, fl),
+        2 => dyn_arm!(v2, fl),
+        3 => dyn_arm!(v3, fl),
+        4 => dyn_arm!(v4, fl),
+        5 => dyn_arm!(v5, fl),
+        6 => dyn_arm!(v6, fl),
+        _ => dyn_arm!(v7, fl),
+    }
 }
